@@ -29,12 +29,14 @@ def bounds(tier):
 
 
 def assume(a, ps, sub):
-    A = [a[0] == ps] + [z3.ULE(a[i], 1) for i in (1, 2, 3, 6, 7, 8, 9, 10, 12)] + [z3.ULE(a[4], 2), z3.ULE(a[5], 8), z3.ULE(a[11], 1)]
+    A = [a[0] == ps] + [z3.ULE(a[i], 1) for i in (1, 2, 3, 6, 7, 8, 9, 10, 12)] + [z3.ULE(a[4], 2), z3.ULE(a[5], 8), z3.ULE(a[11], 2)]
     # canonical encodings of irrelevant parameters
     A.append(z3.Implies(a[4] != 1, a[5] == 0))
     A.append(z3.Implies(a[6] == 0, a[7] == 0))
     A.append(z3.Implies(a[8] == 0, a[12] == 1))
-    A.append(z3.Implies(a[9] == 0, a[11] == 0))
+    A.append(z3.Implies(z3.And(a[9] == 0, a[10] == 0), a[11] == 0))
+    A.append(z3.Implies(a[9] == 0, a[11] != 1))
+    A.append(z3.Implies(a[10] == 0, a[11] != 2))
     A.append(z3.Implies(z3.And(a[1] == 0, z3.Or(a[4] != 1, a[5] == 5)), a[13] == 0))
     if sub == 'tables':
         A += [a[8] == 0, a[9] == 0, a[10] == 0, a[11] == 0, z3.Or(a[13] == 0, a[13] == 3, a[13] == 1), a[14] == 0, a[15] == 0, z3.ULE(a[16], 1), z3.Implies(a[6] == 0, a[16] == 0)]
